@@ -46,6 +46,9 @@ CHECKS = {
  "C07": dict(tech="static analysis: write-target provenance (W) for every in-place mutation reachable from Eval, incl. reflect.Set*/SetMapIndex/Append, append, sort, copy; deep-freshness of the transform's pattern context",
    text="Input immutability as a frame condition for all programs and inputs. Obligation (a) of the transform (pattern evaluated against a deep copy) holds; obligation (b) (mutations stay inside the copy) does not and is the recorded known finding with its failing input. That the transform result equals the specified copy is not decided.",
    ref="DESIGN.md §3 W; §4 C07"),
+ "C08": dict(tech="static analysis: error-provenance dataflow in jparse (ERR), abstract interpretation of the lexer over a finite cursor/width-typestate/first-rune domain (LEX), loop-variant classification and recursion inventory under Compile (LOOP/REC), registration-vs-switch exhaustiveness and explicit-panic inventory (TAB/PANIC), MustCompile/Compile/Parse shape rules",
+   text="The panic and hang classes of Compile that are visible in the shape of the code, for every input string: only *jparse.Error values with declared types leave the parser, the lexer never rewinds by a stale width and never returns an empty non-EOF token (for every first rune), every loop under Compile consumes a token/rune per cycle or has a counted/range variant, the 'unexpected ...' panics are unreachable. Runtime index/slice panics (e.g. the signature parser on an unmatched bracket) and stack depth are NOT decided, and the level note says so.",
+   ref="DESIGN.md §3 ERR, LEX, LOOP, TAB; §4 C08"),
  "C09": dict(tech="static analysis: NF dataflow over all of reach(Eval), dispatch exhaustiveness (TAB), explicit-panic inventory, loop-variant classification and recursion inventory (LOOP/REC), dominating guards (GUARD), interface-keyed map rule (HASH)",
    text="The crash and hang classes that are visible in the shape of the code, decided for every program and input over the module call graph under Eval: unresolved reflect accessors, missing dispatch cases, loops without a variant, unguarded integer division / radix / repeat count, unhashable map keys. The remaining panic classes (type assertions, Set on zero Values, nil interfaces, stack depth) are not decided and are listed as such.",
    ref="DESIGN.md §3 NF, TAB, LOOP, GUARD, HASH; §4 C09"),
